@@ -12,7 +12,7 @@ from .. import cat_common as CC
 from .. import ag_common as AG
 
 KINDS = {"operand_mutated", "g_mutated", "repeat", "storage"}
-AGK = {"value": "C11", "g_mutated": "C11", "storage": "C11"}
+AGK = {"value": "C11", "g_mutated": "C11", "storage": "C11", "leaf_grad": "C11", "interior_grad": "C11"}
 
 
 def run(ctx):
@@ -37,5 +37,10 @@ def run(ctx):
     mx, table, c = AG.emit(rep, "frames", dict(MaxNodes=4, GAlpha={-2}, Ops=ops, UseVec=True, MaxHist=4 if q else 5, MaxBackward=2,
                                                Acts={"op", "bw", "detach"}, InitLeaves=L))
     AG.replay_all(ctx, rep, mx, table, c, AGK, label="frames:", limit=40000 if q else 400000)
+    # tensors on the other side of a no_grad cut are outside the graph being differentiated: a sweep leaves their
+    # gradients (None or a value) alone
+    mx, table, c = AG.emit(rep, "frames-ctx", dict(MaxNodes=4, GAlpha={-2}, Ops={"mul"}, MaxHist=6 if q else 7, MaxBackward=1, MaxCtx=1,
+                                                   Acts={"op", "bw", "ctx"}, InitLeaves=[dict(vec=False, rg=True), dict(vec=False, rg=True)]))
+    AG.replay_all(ctx, rep, mx, table, c, AGK, label="frames-ctx:", limit=40000 if q else 400000)
     rep.exhaustive = False
     return rep.finish()
